@@ -25,51 +25,73 @@ Definition vcase_prop_ok (c : vcase) : bool :=
    the request as it reaches that hop. *)
 Record hop := { hp_tag : str; hp_maj : N; hp_min : N }.
 Record ecase := { e_route : list hop; e_client_via : list str;
+                  e_nominated : bool;  (* the client also sent "Connection: Via" *)
+                  e_connect : bool;    (* CONNECT (the origin sees a connection, no header) *)
                   e_status : N; e_origin_contacts : N; e_origin_via : list str }.
 
 Inductive route_outcome := RouteRefused (status : N) | RouteDelivered (via_lines : list str).
 
-(* model: thread the header through via_modify at every hop *)
-Fixpoint model_route (hops : list hop) (h : hmap) : route_outcome :=
+(* position of a modifier in httpspec.NewStack (Tables.stack_request_order) *)
+Fixpoint index_of (x : str) (l : list str) : option nat :=
+  match l with
+  | [] => None
+  | y :: r => if str_eqb x y then Some O else option_map S (index_of x r)
+  end.
+Definition hbh_before_via : bool :=
+  match index_of (b "NewHopByHopModifier") stack_request_order, index_of (b "NewViaModifier") stack_request_order with
+  | Some i, Some j => Nat.ltb i j
+  | _, _ => false
+  end.
+
+(* model: thread the header through via_modify at every hop.  A Via field nominated by the
+   client's Connection header is deleted by the hop-by-hop modifier, which httpspec.NewStack
+   runs before the Via modifier; the Connection field itself never reaches the next hop. *)
+Fixpoint model_route (hops : list hop) (nominated : bool) (h : hmap) : route_outcome :=
   match hops with
   | [] => RouteDelivered (h_values via_key h)
-  | p :: r => match exchange_of (via_modify (hp_tag p) (hp_maj p) (hp_min p) h) with
-              | Answered st => RouteRefused st
-              | ForwardedOn h' => model_route r h'
-              end
+  | p :: r =>
+      let h0 := if nominated && hbh_before_via then h_del via_key h else h in
+      match exchange_of (via_modify (hp_tag p) (hp_maj p) (hp_min p) h0) with
+      | Answered st => RouteRefused st
+      | ForwardedOn h' => model_route r false h'
+      end
   end.
 
 Definition lines_hmap (lines : list str) : hmap :=
   match lines with [] => [] | _ => [(via_key, lines)] end.
 
 Definition ecase_model_ok (c : ecase) : bool :=
-  match model_route (e_route c) (lines_hmap (e_client_via c)) with
+  match model_route (e_route c) (e_nominated c) (lines_hmap (e_client_via c)) with
   | RouteRefused st => (e_status c =? st) && (e_origin_contacts c =? 0)
   | RouteDelivered lines => (e_status c =? 200) && (e_origin_contacts c =? 1) &&
-                            list_str_eqb lines (e_origin_via c)
+                            (e_connect c || list_str_eqb lines (e_origin_via c))
   end.
 
 (* property: walk the route at the level of RFC list elements.  At the first hop
-   whose own element is already in the chain the request must have been refused
-   (400, origin never contacted); if no hop ever finds even its tag text in the
+   whose own element is already in the chain it received the request must have been
+   refused (400, origin never contacted); if no hop ever finds even its tag text in the
    chain, the origin is contacted once and sees the client's chain followed by
    the hops' elements in order.  (Tag text present but not as an element: an
-   accidental or forged occurrence, either answer is accepted.) *)
-Fixpoint spec_route (hops : list hop) (ch : list str) (refused : bool) (st contacts : N) (seen : list str) : bool :=
+   accidental or forged occurrence, either answer is accepted.)  A chain nominated as
+   hop-by-hop by the client is, as C01 documents, not forwarded: the first hop
+   starts a new chain -- but it must still refuse its own element. *)
+Fixpoint spec_route (hops : list hop) (nominated connect : bool) (ch : list str)
+         (refused : bool) (st contacts : N) (seen : list str) : bool :=
   match hops with
-  | [] => negb refused && (st =? 200) && (contacts =? 1) && list_str_eqb (chain seen) ch
+  | [] => negb refused && (st =? 200) && (contacts =? 1) && (connect || list_str_eqb (chain seen) ch)
   | p :: r =>
+      let next := (if nominated then [] else ch) ++ [elem (hp_tag p) (hp_maj p) (hp_min p)] in
       if existsb (fun it => str_eqb (received_by it) (hp_tag p)) ch
       then refused && (st =? 400) && (contacts =? 0)
       else if existsb (fun it => contains it (hp_tag p)) ch
            then (refused && (st =? 400) && (contacts =? 0)) ||
-                spec_route r (ch ++ [elem (hp_tag p) (hp_maj p) (hp_min p)]) refused st contacts seen
-           else spec_route r (ch ++ [elem (hp_tag p) (hp_maj p) (hp_min p)]) refused st contacts seen
+                spec_route r false connect next refused st contacts seen
+           else spec_route r false connect next refused st contacts seen
   end.
 
 Definition ecase_prop_ok (c : ecase) : bool :=
-  spec_route (e_route c) (chain (e_client_via c)) (negb (e_status c =? 200)) (e_status c)
-             (e_origin_contacts c) (e_origin_via c).
+  spec_route (e_route c) (e_nominated c) (e_connect c) (chain (e_client_via c))
+             (negb (e_status c =? 200)) (e_status c) (e_origin_contacts c) (e_origin_via c).
 
 (* indices (from 0) of the cases on which f fails *)
 Fixpoint bad_from {A} (f : A -> bool) (i : N) (l : list A) : list N :=
